@@ -127,8 +127,13 @@ def runs_c11(tier):
         S.suite_ple_recursive(g, n(tier, 10, 100))
     def guards(g, tier):
         S.suite_guards(g, n(tier, 300, 3000))
+    def headers(g, tier):
+        # the header pool with several heap blocks alive (>= 192 headers), whole blocks emptied and slots re-used:
+        # use-after-free / double free of a pool block is only visible under the sanitizer
+        S.alloc_blockwise(g, 16, 16, 56623104, n(tier, 25, 250))
+        S.alloc_random(g, 16, 16, 56623104, n(tier, 3, 15), 3000, None, many_headers=True)
     return [(DEF, ASAN, s, ['--leakcheck']), (SC, ASAN, sbig, ['--leakcheck']), (DEF_NOSSE, ASAN, s, ['--leakcheck']),
-            (DEF, None, guards, ['--fork'])]
+            (DEF, None, guards, ['--fork']), (DEF, ASAN, headers, ['--fork'])]
 
 
 def runs_c12(tier):
